@@ -45,6 +45,31 @@ CLAIMED = {
         note=TRUST),
 }
 
+CLAIMED.update({
+    "C01": dict(
+        technique="bounded symbolic execution of the real source (symx) + SMT (z3), per composition; known findings keyed by composition with solver-maximised ratio",
+        text="get_kappa, get_delta and get_deltaMax are executed symbolically on symbolic sequences of every composition up to the bound; z3 decides, for all arrangements "
+             "and spellings at once, the structure kappa = delta/deltaMax with the (1,1.1) clamp and the -1 sentinel, deltaMax == 0 => no arrangement has variance, kappa >= 0, "
+             "and kappa <= 1 (compositions where the real code exceeds 1 are recorded known findings with the maximal ratio; exceeding it, or any other composition exceeding 1, is a violation).",
+        note=TRUST + "delta/deltaMax modelled as a real quotient with a 1e-9 guard band at the clamp thresholds; counterexamples replayed with real floats."),
+    "C03": dict(
+        technique="bounded symbolic execution of the real source (symx) + SMT (z3), per composition",
+        text="get_deltaMax with and without the permutant executed symbolically for every composition up to the bound (arrangement and spelling symbolic): the value is entailed "
+             "identical for every member of the composition and equals the exact maximum over the documented candidate family; the returned permutant is proved to be a rearrangement "
+             "of the (symbolic) input with delta equal to delta-max.",
+        note=TRUST + "delta of the permutant is the oracle's exact definition on the permutant's symbolic classes."),
+    "C05": dict(
+        technique="2-safety: two symbolic executions of the real source in one SMT query (z3), summand-wise lemma cut",
+        text="delta, deltaMax, kappa, SCD and Omega are executed symbolically on s and on T(s) (respelling within charge classes with a symbolic choice per position, reversal, "
+             "charge inversion) and proved equal for all sequences within the bound (per composition for kappa/deltaMax/Omega).",
+        note=TRUST + "kappa/Omega equality is not asserted within 1e-9 of the clamp thresholds (documented discontinuity)."),
+    "C06": dict(
+        technique="bounded symbolic execution of the real source (symx) + SMT (z3); symbolic group partitions",
+        text="Omega vs kappa of the recoded sequence vs kappa_X(PEDKR); kappa vs kappa_X(ED,KR) in several spellings; kappa_X under swap of disjoint symbolic groups and under "
+             "complement of a symbolic group; rejection of non-amino-acid members on every path; Omega_sequence positionwise. All with the real kappa code on both sides, per recoded composition.",
+        note=TRUST),
+})
+
 REASON_PENDING = "check not built yet (framework under construction); see DESIGN.md section 5 for the plan"
 
 
